@@ -283,6 +283,9 @@ Proofs/Vmdk.vos Proofs/Vmdk.vok Proofs/Vmdk.required_vos: Proofs/Vmdk.v Base/Ari
 Proofs/VmdkDesc.vo Proofs/VmdkDesc.glob Proofs/VmdkDesc.v.beautified Proofs/VmdkDesc.required_vo: Proofs/VmdkDesc.v Base/Arith.vo Base/Plan.vo Base/Table.vo Model/Vmdk.vo Model/VmdkDesc.vo Proofs/Vmdk.vo
 Proofs/VmdkDesc.vio: Proofs/VmdkDesc.v Base/Arith.vio Base/Plan.vio Base/Table.vio Model/Vmdk.vio Model/VmdkDesc.vio Proofs/Vmdk.vio
 Proofs/VmdkDesc.vos Proofs/VmdkDesc.vok Proofs/VmdkDesc.required_vos: Proofs/VmdkDesc.v Base/Arith.vos Base/Plan.vos Base/Table.vos Model/Vmdk.vos Model/VmdkDesc.vos Proofs/Vmdk.vos
+Proofs/VmdkLayer.vo Proofs/VmdkLayer.glob Proofs/VmdkLayer.v.beautified Proofs/VmdkLayer.required_vo: Proofs/VmdkLayer.v Base/Arith.vo Base/Plan.vo Base/Table.vo Model/Chain.vo Proofs/Chain.vo Model/Vmdk.vo Proofs/Vmdk.vo
+Proofs/VmdkLayer.vio: Proofs/VmdkLayer.v Base/Arith.vio Base/Plan.vio Base/Table.vio Model/Chain.vio Proofs/Chain.vio Model/Vmdk.vio Proofs/Vmdk.vio
+Proofs/VmdkLayer.vos Proofs/VmdkLayer.vok Proofs/VmdkLayer.required_vos: Proofs/VmdkLayer.v Base/Arith.vos Base/Plan.vos Base/Table.vos Model/Chain.vos Proofs/Chain.vos Model/Vmdk.vos Proofs/Vmdk.vos
 Proofs/Vmx.vo Proofs/Vmx.glob Proofs/Vmx.v.beautified Proofs/Vmx.required_vo: Proofs/Vmx.v Model/Text.vo Model/XmlTree.vo Gen/DescTables.vo Model/Vmx.vo Proofs/Text.vo
 Proofs/Vmx.vio: Proofs/Vmx.v Model/Text.vio Model/XmlTree.vio Gen/DescTables.vio Model/Vmx.vio Proofs/Text.vio
 Proofs/Vmx.vos Proofs/Vmx.vok Proofs/Vmx.required_vos: Proofs/Vmx.v Model/Text.vos Model/XmlTree.vos Gen/DescTables.vos Model/Vmx.vos Proofs/Text.vos
@@ -316,9 +319,9 @@ Props/C05.vos Props/C05.vok Props/C05.required_vos: Props/C05.v Base/Plan.vos Ba
 Props/C06.vo Props/C06.glob Props/C06.v.beautified Props/C06.required_vo: Props/C06.v Base/Plan.vo Base/Table.vo Model/Hds.vo Proofs/Hds.vo
 Props/C06.vio: Props/C06.v Base/Plan.vio Base/Table.vio Model/Hds.vio Proofs/Hds.vio
 Props/C06.vos Props/C06.vok Props/C06.required_vos: Props/C06.v Base/Plan.vos Base/Table.vos Model/Hds.vos Proofs/Hds.vos
-Props/C07.vo Props/C07.glob Props/C07.v.beautified Props/C07.required_vo: Props/C07.v Model/Qcow2.vo Proofs/Qcow2.vo Spec/Qcow2.vo Base/Plan.vo Base/Table.vo Model/Chain.vo Proofs/Chain.vo Proofs/Layers.vo Model/Vdi.vo Proofs/Vdi.vo Model/Hds.vo Proofs/Hds.vo Model/Vhdx.vo Proofs/Vhdx.vo Proofs/VhdxPartial.vo Proofs/VhdxLayer.vo Model/OpenParent.vo Proofs/OpenParent.vo
-Props/C07.vio: Props/C07.v Model/Qcow2.vio Proofs/Qcow2.vio Spec/Qcow2.vio Base/Plan.vio Base/Table.vio Model/Chain.vio Proofs/Chain.vio Proofs/Layers.vio Model/Vdi.vio Proofs/Vdi.vio Model/Hds.vio Proofs/Hds.vio Model/Vhdx.vio Proofs/Vhdx.vio Proofs/VhdxPartial.vio Proofs/VhdxLayer.vio Model/OpenParent.vio Proofs/OpenParent.vio
-Props/C07.vos Props/C07.vok Props/C07.required_vos: Props/C07.v Model/Qcow2.vos Proofs/Qcow2.vos Spec/Qcow2.vos Base/Plan.vos Base/Table.vos Model/Chain.vos Proofs/Chain.vos Proofs/Layers.vos Model/Vdi.vos Proofs/Vdi.vos Model/Hds.vos Proofs/Hds.vos Model/Vhdx.vos Proofs/Vhdx.vos Proofs/VhdxPartial.vos Proofs/VhdxLayer.vos Model/OpenParent.vos Proofs/OpenParent.vos
+Props/C07.vo Props/C07.glob Props/C07.v.beautified Props/C07.required_vo: Props/C07.v Model/Qcow2.vo Proofs/Qcow2.vo Spec/Qcow2.vo Base/Plan.vo Base/Table.vo Model/Chain.vo Proofs/Chain.vo Proofs/Layers.vo Model/Vdi.vo Proofs/Vdi.vo Model/Hds.vo Proofs/Hds.vo Model/Vhdx.vo Proofs/Vhdx.vo Proofs/VhdxPartial.vo Proofs/VhdxLayer.vo Model/OpenParent.vo Proofs/OpenParent.vo Model/Vmdk.vo Proofs/Vmdk.vo Proofs/VmdkLayer.vo
+Props/C07.vio: Props/C07.v Model/Qcow2.vio Proofs/Qcow2.vio Spec/Qcow2.vio Base/Plan.vio Base/Table.vio Model/Chain.vio Proofs/Chain.vio Proofs/Layers.vio Model/Vdi.vio Proofs/Vdi.vio Model/Hds.vio Proofs/Hds.vio Model/Vhdx.vio Proofs/Vhdx.vio Proofs/VhdxPartial.vio Proofs/VhdxLayer.vio Model/OpenParent.vio Proofs/OpenParent.vio Model/Vmdk.vio Proofs/Vmdk.vio Proofs/VmdkLayer.vio
+Props/C07.vos Props/C07.vok Props/C07.required_vos: Props/C07.v Model/Qcow2.vos Proofs/Qcow2.vos Spec/Qcow2.vos Base/Plan.vos Base/Table.vos Model/Chain.vos Proofs/Chain.vos Proofs/Layers.vos Model/Vdi.vos Proofs/Vdi.vos Model/Hds.vos Proofs/Hds.vos Model/Vhdx.vos Proofs/Vhdx.vos Proofs/VhdxPartial.vos Proofs/VhdxLayer.vos Model/OpenParent.vos Proofs/OpenParent.vos Model/Vmdk.vos Proofs/Vmdk.vos Proofs/VmdkLayer.vos
 Props/C08.vo Props/C08.glob Props/C08.v.beautified Props/C08.required_vo: Props/C08.v Model/Qcow2.vo Proofs/Qcow2.vo Spec/Qcow2.vo Model/Vmdk.vo Proofs/Vmdk.vo Base/Plan.vo Base/Table.vo Model/AlignedStream.vo Proofs/AlignedStream.vo Model/Lru.vo Proofs/Lru.vo Proofs/StreamReaders.vo Model/AlignedStreamB.vo Proofs/AlignedStreamB.vo Proofs/StreamBytes.vo Model/Vhd.vo Proofs/Vhd.vo Model/Vdi.vo Proofs/Vdi.vo Model/Vhdx.vo Proofs/Vhdx.vo Model/Hds.vo Proofs/Hds.vo
 Props/C08.vio: Props/C08.v Model/Qcow2.vio Proofs/Qcow2.vio Spec/Qcow2.vio Model/Vmdk.vio Proofs/Vmdk.vio Base/Plan.vio Base/Table.vio Model/AlignedStream.vio Proofs/AlignedStream.vio Model/Lru.vio Proofs/Lru.vio Proofs/StreamReaders.vio Model/AlignedStreamB.vio Proofs/AlignedStreamB.vio Proofs/StreamBytes.vio Model/Vhd.vio Proofs/Vhd.vio Model/Vdi.vio Proofs/Vdi.vio Model/Vhdx.vio Proofs/Vhdx.vio Model/Hds.vio Proofs/Hds.vio
 Props/C08.vos Props/C08.vok Props/C08.required_vos: Props/C08.v Model/Qcow2.vos Proofs/Qcow2.vos Spec/Qcow2.vos Model/Vmdk.vos Proofs/Vmdk.vos Base/Plan.vos Base/Table.vos Model/AlignedStream.vos Proofs/AlignedStream.vos Model/Lru.vos Proofs/Lru.vos Proofs/StreamReaders.vos Model/AlignedStreamB.vos Proofs/AlignedStreamB.vos Proofs/StreamBytes.vos Model/Vhd.vos Proofs/Vhd.vos Model/Vdi.vos Proofs/Vdi.vos Model/Vhdx.vos Proofs/Vhdx.vos Model/Hds.vos Proofs/Hds.vos
